@@ -621,6 +621,35 @@ def cleanup_root(root):
         shutil.rmtree(d, ignore_errors=True)
 
 
+def start_instability(times):
+    """File-system instability as the monitors report it: at each seeded virtual time a FilesystemInconsistencyError is
+    handed to the MonitorExceptionTracker (what an engine's monitor does when a producer directory cannot be listed).
+    The controller consults the tracker before it gives a failed component its verdict (25 s later) and suspends the
+    component for up to 120 s when the system looks unstable."""
+    import threading
+    import experiment.runtime.monitor as M
+    import experiment.runtime.errors as RE
+
+    def run():
+        t0 = simk.K.clock
+        for t in sorted(times):
+            left = t0 + t - simk.K.clock
+            if left > 0:
+                simk.sim_sleep(left)
+            try:
+                err = RE.FilesystemInconsistencyError('simulated: producer directory could not be listed', None)
+            except TypeError:
+                err = RE.FilesystemInconsistencyError('simulated: producer directory could not be listed')
+            M.MonitorExceptionTracker.defaultTracker().addException(err)
+            REC.ev('instability', None, None)
+            REC.count('fault.filesystem_instability_reported')
+
+    t = threading.Thread(target=run, name='Instability')
+    t.daemon = True
+    t.start()
+    return t
+
+
 def start_operator(pauses, slow_wake_p=0.0):
     """The operator of scripts/elaunch.py (pause / live-patch signals), as a simulated thread: at each seeded virtual time
     it puts the current controller to sleep, waits until the scheduler reports that it sleeps (bounded), stays paused for
